@@ -34,6 +34,100 @@ func ruleTextEditChecked(p *Prog, r *Res, rule string) {
 		return
 	}
 	n := 0
+	// reachedUnchecked: can target (a CFG node of gf) be reached from the entry of gf without passing the true edge of
+	// a check of a definition's form (a boolean function of the package that is handed X.definition)?
+	reachedUnchecked := func(gf *Fn, target ast.Node) (pathResult, *Flow) {
+		ginfo := gf.Pkg.TypesInfo
+		checks := func(c ast.Expr, trueEdge bool) bool {
+			c = ast.Unparen(c)
+			neg := false
+			if u, ok := c.(*ast.UnaryExpr); ok && u.Op == token.NOT {
+				c, neg = ast.Unparen(u.X), true
+			}
+			if id, isId := c.(*ast.Ident); isId {
+				// a local boolean that holds the answer of the check: `plain := isPlain(def)`
+				if o := ginfo.Uses[id]; o != nil {
+					var defs []ast.Expr
+					ast.Inspect(gf.Body(), func(x ast.Node) bool {
+						if as2, ok := x.(*ast.AssignStmt); ok {
+							for i, l := range as2.Lhs {
+								if identObj(ginfo, l) == o {
+									if len(as2.Lhs) == len(as2.Rhs) {
+										defs = append(defs, as2.Rhs[i])
+									} else {
+										defs = append(defs, nil)
+									}
+								}
+							}
+						}
+						return true
+					})
+					if len(defs) == 1 && defs[0] != nil {
+						c = ast.Unparen(defs[0])
+					}
+				}
+			}
+			call, ok := c.(*ast.CallExpr)
+			if !ok {
+				return false
+			}
+			fn := p.Callee(gf.Pkg, call)
+			if fn == nil || fn.Pkg() != gf.Pkg.Types {
+				return false
+			}
+			sig, _ := fn.Type().(*types.Signature)
+			if sig == nil || sig.Results().Len() != 1 {
+				return false
+			}
+			if b, ok := sig.Results().At(0).Type().Underlying().(*types.Basic); !ok || b.Kind() != types.Bool {
+				return false
+			}
+			arg := false
+			for _, a := range call.Args {
+				if se, ok := ast.Unparen(a).(*ast.SelectorExpr); ok && ginfo.Uses[se.Sel] == types.Object(defn) {
+					arg = true
+				}
+			}
+			return arg && trueEdge != neg
+		}
+		g := p.Flow(gf)
+		g.EdgeOK = func(b *cfg.Block, succ int) bool {
+			if len(b.Succs) != 2 || len(b.Nodes) == 0 {
+				return true
+			}
+			cond, ok := b.Nodes[len(b.Nodes)-1].(ast.Expr)
+			if !ok {
+				return true
+			}
+			if succ == 0 {
+				for _, c := range conjuncts(cond) {
+					if checks(c, true) {
+						return false
+					}
+				}
+				return true
+			}
+			for _, c := range disjuncts(cond) {
+				if checks(c, false) {
+					return false
+				}
+			}
+			// false edge of a conjunction one of whose conjuncts is the failed check together with conditions that
+			// hold whenever the edit is reached is not decidable here; the plain forms above are what the tree uses
+			if cs := conjuncts(cond); len(cs) > 1 {
+				for _, c := range cs {
+					if checks(c, false) {
+						// `A && !isPlain(def)` is false: either !A or isPlain — fine only if A is implied at the edit;
+						// accept when A reads a length the edit branch also tests
+						return !editRetests(gf, target, cs, c)
+					}
+				}
+			}
+			return true
+		}
+		res := g.Reach([]Pt{g.Entry()}, func(nd ast.Node) bool { return nd == target }, nil)
+		return res, g
+	}
 	for _, f := range p.FnList {
 		if f.Short != "manager" || f.Body() == nil {
 			continue
@@ -76,94 +170,40 @@ func ruleTextEditChecked(p *Prog, r *Res, rule string) {
 			as := fl.node(pt)
 			n++
 			key := fmt.Sprintf("%s extends a definition as text@%s", f.Key(), relLine(p, f, as))
-			checks := func(c ast.Expr, trueEdge bool) bool {
-				c = ast.Unparen(c)
-				neg := false
-				if u, ok := c.(*ast.UnaryExpr); ok && u.Op == token.NOT {
-					c, neg = ast.Unparen(u.X), true
-				}
-				if id, isId := c.(*ast.Ident); isId {
-					// a local boolean that holds the answer of the check: `plain := isPlain(def)`
-					if o := info.Uses[id]; o != nil {
-						var defs []ast.Expr
-						ast.Inspect(f.Body(), func(x ast.Node) bool {
-							if as2, ok := x.(*ast.AssignStmt); ok {
-								for i, l := range as2.Lhs {
-									if identObj(info, l) == o {
-										if len(as2.Lhs) == len(as2.Rhs) {
-											defs = append(defs, as2.Rhs[i])
-										} else {
-											defs = append(defs, nil)
-										}
+			res, g := reachedUnchecked(f, as)
+			if res.Found && f.Lit == nil && f.Decl != nil && !ast.IsExported(f.Decl.Name.Name) {
+				// the edit lives in a helper: the check may stand in front of every call of it
+				if fobj, _ := info.Defs[f.Decl.Name].(*types.Func); fobj != nil {
+					sites, good := 0, 0
+					for _, cg := range p.FnList {
+						if cg.Pkg != f.Pkg || cg.Body() == nil {
+							continue
+						}
+						cfl := p.Flow(cg)
+						for _, blk := range cfl.G.Blocks {
+							for _, nd := range blk.Nodes {
+								hit := false
+								inspectShallow(nd, func(y ast.Node) bool {
+									if c, ok := y.(*ast.CallExpr); ok && p.Callee(cg.Pkg, c) == fobj {
+										hit = true
 									}
+									return !hit
+								})
+								if !hit {
+									continue
+								}
+								sites++
+								if r2, _ := reachedUnchecked(cg, nd); !r2.Found {
+									good++
 								}
 							}
-							return true
-						})
-						if len(defs) == 1 && defs[0] != nil {
-							c = ast.Unparen(defs[0])
 						}
 					}
-				}
-				call, ok := c.(*ast.CallExpr)
-				if !ok {
-					return false
-				}
-				fn := p.Callee(f.Pkg, call)
-				if fn == nil || fn.Pkg() != f.Pkg.Types {
-					return false
-				}
-				sig, _ := fn.Type().(*types.Signature)
-				if sig == nil || sig.Results().Len() != 1 {
-					return false
-				}
-				if b, ok := sig.Results().At(0).Type().Underlying().(*types.Basic); !ok || b.Kind() != types.Bool {
-					return false
-				}
-				arg := false
-				for _, a := range call.Args {
-					if se, ok := ast.Unparen(a).(*ast.SelectorExpr); ok && info.Uses[se.Sel] == types.Object(defn) {
-						arg = true
+					if sites > 0 && sites == good {
+						res.Found = false
 					}
 				}
-				return arg && trueEdge != neg
 			}
-			g := p.Flow(f)
-			g.EdgeOK = func(b *cfg.Block, succ int) bool {
-				if len(b.Succs) != 2 || len(b.Nodes) == 0 {
-					return true
-				}
-				cond, ok := b.Nodes[len(b.Nodes)-1].(ast.Expr)
-				if !ok {
-					return true
-				}
-				if succ == 0 {
-					for _, c := range conjuncts(cond) {
-						if checks(c, true) {
-							return false
-						}
-					}
-					return true
-				}
-				for _, c := range disjuncts(cond) {
-					if checks(c, false) {
-						return false
-					}
-				}
-				// false edge of a conjunction one of whose conjuncts is the failed check together with conditions that
-				// hold whenever the edit is reached is not decidable here; the plain forms above are what the tree uses
-				if cs := conjuncts(cond); len(cs) > 1 {
-					for _, c := range cs {
-						if checks(c, false) {
-							// `A && !isPlain(def)` is false: either !A or isPlain — fine only if A is implied at the edit;
-							// accept when A reads a length the edit branch also tests
-							return !editRetests(f, as, cs, c)
-						}
-					}
-				}
-				return true
-			}
-			res := g.Reach([]Pt{g.Entry()}, func(nd ast.Node) bool { return nd == as }, nil)
 			r.Check(!res.Found, rule, key, p.Pos(as), "reached only where the form of the definition was checked", "the definition is extended as text without a check that it has the form the edit assumes ("+g.traceString(res)+"): a definition that was accepted because its CONDITIONS are an id filter, but is written differently, becomes unparsable — the loader refuses the whole state file after the next restart")
 		}
 	}
